@@ -75,11 +75,11 @@ Section HS.
     destruct (hset compact ts false key f (format_int (n0 + d)) c) as [c' r]. exact H.
   Qed.
 
-  Lemma hclear_rep clock key (c : hcoll) : Rep clock c -> Rep clock (fst (hclear compact key c)).
+  Lemma hclear_rep clock ts key (c : hcoll) : Rep clock c -> Rep clock (fst (hclear compact ts key c)).
   Proof.
     intros R. unfold hclear.
     destruct (negb (key_ok key)); cbn [fst]; [exact R|].
-    destruct (st_size c =? 0); cbn [fst]; [exact R|apply rep_clear; exact R].
+    destruct (st_size c =? 0); cbn [fst]; [exact R|apply rep_clear; [apply lazy_clear_compact|exact R]].
   Qed.
 
   (* ---------- set ---------- *)
@@ -123,11 +123,11 @@ Section HS.
     destruct r; cbn [fst]; auto.
   Qed.
 
-  Lemma sclear_rep clock key (c : scoll) : Rep clock c -> Rep clock (fst (sclear compact key c)).
+  Lemma sclear_rep clock ts key (c : scoll) : Rep clock c -> Rep clock (fst (sclear compact ts key c)).
   Proof.
     intros R. unfold sclear.
     destruct (negb (key_ok key)); cbn [fst]; [exact R|].
-    destruct (st_size c =? 0); cbn [fst]; [exact R|apply rep_clear; exact R].
+    destruct (st_size c =? 0); cbn [fst]; [exact R|apply rep_clear; [apply lazy_clear_compact|exact R]].
   Qed.
 
   (* ---------- C09 read back: what the read commands report under Rep ---------- *)
